@@ -144,6 +144,26 @@ Pre(T) == CASE T.k = "rec" -> IF T.d = 0 THEN [g |-> "st", f |-> <<[g |-> "n", a
             [] T.k = "map" -> [g |-> "m", m |-> {[k |-> (IF T.key \in {"str", "txt"} THEN "old" ELSE "9"), v |-> Pre(T.e)]}]
             [] T.k = "st" -> [g |-> "st", f |-> [i \in 1..Len(T.f) |-> Pre(T.f[i].t)]]
 
+\* "precap": the prior value whose slices have ONE visible element and spare capacity holding two stale ones (the backing array of
+\* a slice that was longer before).  encoding/json decodes element i of a longer document INTO the stale slot (it extends the
+\* length without clearing), so what a partial or null element leaves there is observable; `spare` is not part of the value
+\* (two slices are equal when their visible elements are)
+RECURSIVE PreCap(_)
+PreCap(T) == CASE T.k = "slice" /\ T.e.k # "u8" -> [g |-> "a", e |-> <<PreCap(T.e)>>, spare |-> <<Pre(T.e), Pre(T.e)>>]
+               [] T.k = "ptr" -> [g |-> "p", e |-> PreCap(T.e)]
+               [] T.k = "arr" -> [g |-> "a", e |-> [i \in 1..T.n |-> PreCap(T.e)]]
+               [] T.k = "st" -> [g |-> "st", f |-> [i \in 1..Len(T.f) |-> PreCap(T.f[i].t)]]
+               [] T.k = "rec" -> IF T.d = 0 THEN Pre(T) ELSE PreCap(Unfold(T))
+               [] OTHER -> Pre(T)
+RECURSIVE HasSlice(_)
+HasSlice(T) == CASE T.k = "slice" -> T.e.k # "u8"
+                 [] T.k \in {"ptr", "arr"} -> HasSlice(T.e)
+                 [] T.k = "st" -> \E i \in 1..Len(T.f) : HasSlice(T.f[i].t)
+                 [] T.k = "rec" -> T.d > 0
+                 [] OTHER -> FALSE
+\* the slots a JSON array's elements are decoded into: the visible elements, then the stale ones within the capacity
+Olds(old) == IF old = Nil THEN <<>> ELSE IF "spare" \in DOMAIN old THEN old.e \o old.spare ELSE old.e
+
 \* ---- interface{} destination: the generic value ----
 StrVal(c, o) == IF c = "sctl" \/ (c = "ssur" /\ o.ue) THEN Hard ELSE Ok([g |-> "s", c |-> c])
 
@@ -289,7 +309,7 @@ Dec(T0, J, old, o) ==
         ELSE Mismatch(J))
   ELSE IF T.k = "slice" /\ T.e.k = "u8" THEN Dec([k |-> "bytes"], J, IF old = Nil THEN Nil ELSE [g |-> "by", c |-> "old"], o)
   ELSE IF T.k = "slice" THEN
-       (IF J.j = "a" THEN DecElems(T.e, J.e, 1, IF old = Nil THEN <<>> ELSE old.e, o, "slice") ELSE Mismatch(J))
+       (IF J.j = "a" THEN DecElems(T.e, J.e, 1, Olds(old), o, "slice") ELSE Mismatch(J))
   ELSE IF T.k = "arr" THEN
        (IF J.j = "a" THEN DecElems(T.e, J.e, 1, old.e, o, "arr") ELSE Mismatch(J))
   ELSE IF T.k = "map" THEN
